@@ -193,6 +193,85 @@ void add_s2b(mc::Runner &R, const std::string &name, const std::vector<Topo> *to
   R.add(s);
 }
 
+// ------------------------------------------------------------------ S2c: several closed components, attribute values per corner / face / component
+std::vector<std::pair<std::string, Topo>> s2c_topologies() {
+  const Topo tet = {{0, 1, 2}, {0, 3, 1}, {1, 3, 2}, {2, 3, 0}};
+  auto shifted = [](Topo t, int by) {
+    for (auto &f : t)
+      for (int k = 0; k < 3; ++k) f[k] += by;
+    return t;
+  };
+  auto cat = [](Topo a, const Topo &b) {
+    a.insert(a.end(), b.begin(), b.end());
+    return a;
+  };
+  const Topo pillow = {{0, 1, 2}, {0, 2, 1}};
+  std::vector<std::pair<std::string, Topo>> v;
+  v.push_back({"two_pillows", cat(pillow, shifted(pillow, 3))});
+  v.push_back({"three_pillows", cat(cat(pillow, shifted(pillow, 3)), shifted(pillow, 6))});
+  v.push_back({"two_tetrahedra", cat(tet, shifted(tet, 4))});
+  v.push_back({"three_tetrahedra", cat(cat(tet, shifted(tet, 4)), shifted(tet, 8))});
+  v.push_back({"tetrahedron_and_pillow", cat(tet, shifted(pillow, 4))});
+  v.push_back({"pillow_and_open_triangle", cat(pillow, Topo{{3, 4, 5}})});
+  return v;
+}
+void add_s2c(mc::Runner &R, const std::string &name, bool quick, bool thorough) {
+  auto T = std::make_shared<std::vector<std::pair<std::string, Topo>>>(s2c_topologies());
+  // value kinds: 0 unique per corner, 1 unique per face, 2 unique per component, 3.. : 2-value per face patterns (all 2^F)
+  auto off = std::make_shared<std::vector<uint64_t>>();
+  uint64_t total = 0;
+  for (auto &t : *T) {
+    off->push_back(total);
+    total += 3 + (1ull << t.second.size());
+  }
+  // x {eb std, eb valence, sequential} x split {unset, off, on} x speed {0,3,5,10} x position kind {q11, i32}
+  mc::Radix rx{4, 3, 3, 2, total};
+  auto make = [=](uint64_t idx, GeomDef *g, EncCfg *c) {
+    auto d = rx.decode(idx);
+    int ti = (int)off->size() - 1;
+    while ((*off)[ti] > d[4]) --ti;
+    const Topo &t = (*T)[ti].second;
+    const uint64_t k = d[4] - (*off)[ti];
+    std::vector<int> cv(3 * t.size());
+    for (size_t f = 0; f < t.size(); ++f)
+      for (int c3 = 0; c3 < 3; ++c3) {
+        int v;
+        if (k == 0) v = (int)(3 * f + c3);
+        else if (k == 1) v = (int)f;
+        else if (k == 2) v = t[f][0] / 3;  // grows with the component
+        else v = (int)(((k - 3) >> f) & 1);
+        cv[3 * f + c3] = v;
+      }
+    *g = gs::s2c_mesh(t, cv, d[3] == 0 ? gs::POS_F32_Q : gs::POS_I32);
+    static const int mk[3] = {2, 3, 0}, sp[4] = {0, 3, 5, 10};
+    *c = gs::mesh_cfg(mk[d[2]], sp[d[0]]);
+    c->split_on_seams = (int)d[1] - 1;
+    c->qbits = {d[3] == 0 ? 11 : 0, 0};
+  };
+  mc::Space s;
+  s.name = name;
+  s.size = rx.size();
+  s.quick = quick;
+  s.thorough = thorough;
+  s.run = [=](uint64_t idx, mc::Ctx &ctx) {
+    GeomDef g;
+    EncCfg c;
+    make(idx, &g, &c);
+    auto r = rt::check_roundtrip(g, c, ctx, "", !g_c09, g_c09);
+    if (r.decoded) {
+      ctx.count("cases_with_several_components");
+      ctx.nontrivial_unique();
+    }
+  };
+  s.describe = [=](uint64_t idx) {
+    GeomDef g;
+    EncCfg c;
+    make(idx, &g, &c);
+    return text(g) + " " + text(c);
+  };
+  R.add(s);
+}
+
 // ------------------------------------------------------------------ S3
 // Attribute layouts: a second attribute of every type/data type/component
 // count on 4 fixed topologies, per-vertex or per-corner, with forced
@@ -718,6 +797,7 @@ int main(int argc, char **argv) {
     add_s2(R, "S2_F2_quick", &g_s2_small, {1}, {0, 1, 2}, {0, 2, 3}, false, true, false);
     add_s2(R, "S2_F2", &g_s2_small, {1, 2}, {0, 1, 2, 3}, {0, 1, 2, 3, 4}, true, false, true);
     add_s2(R, "S2_named", &g_s2_named, {1, 2}, {0, 1, 2}, {0, 2, 3}, false, false, true);
+    add_s2c(R, "S2c_several_components", true, true);
     add_s2b(R, "S2b_F2_two_attributes_reduced", &g_topos_f2_only, false, {0}, true, false, true);
     add_s2b(R, "S2b_closed_second_attribute_per_face_reduced", &g_topos_s2b_perface, true, {0, 5}, true, false, true);
     add_s2b(R, "S2b_F2_two_attributes", &g_topos_f2_only, false, {0, 5}, false, true);
